@@ -831,8 +831,9 @@ pub fn gen_timescale(rng: &mut Rng) -> u32 {
 pub fn gen_track(rng: &mut Rng, allow_high_aot: bool) -> TrackSpec {
     let media = match rng.below(5) {
         0 => {
-            let sl = *rng.pick(&[4usize, 4, 5, 8, 16, 31, 64, 255, 1024, 4096]);
-            let pl = *rng.pick(&[4usize, 4, 5, 6, 8, 32, 300, 4096]);
+            // lengths over the whole accepted domain 4..=65535, both edges included
+            let sl = *rng.pick(&[4usize, 4, 5, 8, 16, 31, 64, 255, 256, 1024, 4096, 65533, 65534, 65535]);
+            let pl = *rng.pick(&[4usize, 4, 5, 6, 8, 32, 300, 4096, 65533, 65534, 65535]);
             Media::Avc { w: rng.biased_u16(), h: rng.biased_u16(), sps: gen_sps(rng, sl), pps: rng.bytes(pl) }
         }
         1 => Media::Hevc { w: rng.biased_u16(), h: rng.biased_u16() },
